@@ -124,7 +124,7 @@ def iterfile_installs(ex, st):
 def iterfile_target(ex, st):
     inst = st.ghost.get(INSTALLED, [])
     if len(inst) != 1:
-        raise Unsupported('iterfile_target: not exactly one installation on this path')
+        return VV.v_str('<no file installed on this path>')
     return inst[0][0]
 
 
@@ -132,5 +132,13 @@ def iterfile_target(ex, st):
 def iterfile_lines(ex, st):
     inst = st.ghost.get(INSTALLED, [])
     if len(inst) != 1:
-        raise Unsupported('iterfile_lines: not exactly one installation on this path')
+        return lib.spec_list(ex, st, [])
     return inst[0][1]
+
+
+@spec('file_lines')
+def file_lines(ex, st, f):
+    """the lines printed so far to a file object opened for writing"""
+    if f.kind != 'py' or f.py[0] != 'c15file':
+        raise Unsupported('file_lines of something that is not an open file')
+    return f.py[2]
